@@ -130,6 +130,10 @@ pub fn view2<A: Pay, B: Pay>(h: &H2<A, B>) -> R<View2> {
             );
             counts.push(("ThinArc::strong_count", ThinArc::strong_count(t)));
             counts.push(("ThinArc::with_arc", t.with_arc(|f| Arc::count(f))));
+            counts.push((
+                "uniq:ThinArc::with_arc(is_unique)",
+                t.with_arc(|f| f.is_unique()) as usize,
+            ));
             let fh = t.with_arc(|f| f.heap_ptr() as usize);
             ensure!(
                 Some(fh) == heap,
@@ -143,6 +147,7 @@ pub fn view2<A: Pay, B: Pay>(h: &H2<A, B>) -> R<View2> {
             heap = Some(f.heap_ptr() as usize);
             counts.push(("fat:Arc::count", Arc::count(f)));
             counts.push(("fat:Arc::strong_count", Arc::strong_count(f)));
+            counts.push(("uniq:fat Arc::is_unique", f.is_unique() as usize));
         }
         H2::Prot(p) => {
             if let Err(e) = p.header().check() {
@@ -175,6 +180,7 @@ pub fn view2<A: Pay, B: Pay>(h: &H2<A, B>) -> R<View2> {
             elems = v;
             heap = Some(p.heap_ptr() as usize);
             counts.push(("prot:Arc::count", Arc::count(p)));
+            counts.push(("uniq:protected Arc::is_unique", p.is_unique() as usize));
         }
         H2::Raw(p) => {
             let t = ManuallyDrop::new(unsafe { ThinArc::<A, B>::from_raw(*p) });
@@ -593,6 +599,22 @@ impl<'s, A: Pay + Send + Sync, B: Pay + Send + Sync> W<'s, A, B> {
                 );
             }
             for (name, c) in &v.counts {
+                if let Some(api) = name.strip_prefix("uniq:") {
+                    // a non-mutating uniqueness verdict, taken at every step: it must agree with the model's owner count
+                    self.st.counts.bump("uniq_obs.passive");
+                    ensure!(
+                        (*c == 1) == (owners == 1),
+                        "C03,C04",
+                        "uniq",
+                        "after {}: {} through a {} handle says unique={} but {} owning handles exist",
+                        ctx,
+                        api,
+                        kind,
+                        *c == 1,
+                        owners
+                    );
+                    continue;
+                }
                 if self.light {
                     self.st.counts.bump("count_obs.any");
                 } else {
